@@ -57,6 +57,15 @@ Theorem C14_deliverfrom_buffers : forall n t skip H toolong me st i off w v c,
 Proof. exact deliver_from_buffers. Qed.
 Print Assumptions C14_deliverfrom_buffers.
 
+(* ... and over every schedule of the network model (all n, t, Byzantine sets, interleavings of Deliver and DeliverFrom with
+   channel switches): a value returned by DeliverFrom(i) at party p on channel c was delivered by Deliver at p for sender i
+   under a tag of channel c -- no delivery crosses into another channel *)
+Theorem C14_channel_isolation_all_schedules : forall n t skip H toolong byz es p c i v,
+  In (p, c, i, v) (gapi (grun n t skip H toolong byz es)) ->
+  exists s, In (p, (c, i, s), v) (glog (grun n t skip H toolong byz es)).
+Proof. exact deliverfrom_isolation_run. Qed.
+Print Assumptions C14_channel_isolation_all_schedules.
+
 (* "no honest party delivers a slot twice" is FALSE without FIFO sequence numbers (finding F8): n = 4, t = 1, no faulty
    party; the ready quorum reaches P3 before the payload, and each of the three r-answers delivers *)
 Theorem C14_no_dup_nonfifo_refuted : ~ no_duplicate_statement.
